@@ -80,7 +80,7 @@ Section Full.
   Proof.
     induction fuel as [|f IH]; intros off r acc ms Hacc H; [discriminate|].
     cbn [members] in H. destruct (next St rd sk false (S f) off r) as [x r1].
-    destruct x as [| | |h od no]; try discriminate.
+    destruct x as [| | |h od no|]; try discriminate.
     - injection H as <-. assumption.
     - destruct (has_data (h_type h)) eqn:Hd.
       + destruct (fsr_loop St rd sk false (S f) None od (h_size h) 0 r1 []) as [[o d] q] eqn:E.
@@ -110,7 +110,7 @@ Proof.
   destruct ((h_type h0 =? T_GNULONGNAME) || (h_type h0 =? T_GNULONGLINK)).
   - destruct (read St rd (block (h_size h0)) r1) as [nbuf r2].
     destruct (fromtar St rd f r2) as [x r3] eqn:E.
-    destruct x as [e| | |h' od' no']; try destruct e; try discriminate.
+    destruct x as [e| | |h' od' no'|]; try destruct e; try discriminate.
     apply IH in E. injection H as <- <- <- <-. destruct (h_type h0 =? T_GNULONGNAME); simpl; exact E.
   - destruct (is_pax_type (h_type h0)); [discriminate|]. injection H as <- <- <- <-. split; reflexivity.
 Qed.
@@ -122,7 +122,7 @@ Proof.
   destruct (negb (off =? pos r) && (off =? 0)); [discriminate|].
   destruct (advance St rd sk legacy off r) as [a|]; [|discriminate].
   destruct (fromtar St rd fuel a) as [x r2] eqn:E.
-  destruct x as [e| | |h' od' no']; try destruct e; try destruct (off =? 0); try discriminate;
+  destruct x as [e| | |h' od' no'|]; try destruct e; try destruct (off =? 0); try discriminate;
     injection H as <- <- <- <-; eapply fromtar_ok_inv; exact E.
 Qed.
 
